@@ -149,6 +149,9 @@ class Normalizer:
                                                          "operator.methodcaller", "methodcaller", "float", "frozenset")
             if isinstance(x, ast.BinOp):
                 return pure(x.left) and pure(x.right)
+            if isinstance(x, (ast.Attribute, ast.Name)):
+                return self._dotted_external(x) in ("math.inf", "math.pi", "math.e", "math.nan", "math.tau", "numpy.inf", "numpy.nan",
+                                                    "numpy.pi", "sys.maxsize", "sys.float_info.max", "sys.float_info.epsilon")
             return False
         if not pure(v):
             return None
@@ -216,6 +219,10 @@ class Normalizer:
     def n_Attribute(self, e, b):
         base = self.norm(e.value)
         name = mangle(e.attr, self.cls.name if self.cls else None)
+        if base[0] == "ext" and base[1] in self.ctx.p.modules and e.attr in self.ctx.p.modules[base[1]].assigns:
+            c = self._module_constant(self.ctx.p.modules[base[1]], e.attr)      # <repo module>.CONSTANT
+            if c is not None:
+                return c
         t = T.mk_attr(base, name)
         if t in self.heap:
             return self.heap[t]
@@ -647,7 +654,14 @@ class Normalizer:
             return T.mk_call(dotted, args, kwargs)
         if isinstance(f, ast.Attribute):
             return ("mcall", self.norm(f.value), f.attr, args, kwargs)
-        return ("mcall", self.norm(f), "__call__", args, kwargs)
+        fv = self.norm(f)
+        if fv[0] == "lam" and fv[1] == 1 and len(args) == 1 and not kwargs and args[0][0] != "star":
+            # a one-parameter lambda value applied on the spot (a selector handed in as an argument): its body at that argument
+            inner = [x for x in T.subterms(fv[2]) if x[0] in ("lam", "comp")]
+            bvs = {x for x in T.subterms(fv[2]) if x[0] == "bv"}
+            if not inner and len(bvs) <= 1:
+                return T.substitute(fv[2], {b: args[0] for b in bvs})
+        return ("mcall", fv, "__call__", args, kwargs)
 
     # ------------------------------------------------------------------ iteration idioms -> comprehensions
     def _canonical_iteration(self, dotted: str, e: ast.Call) -> Optional[Term]:
